@@ -1005,15 +1005,16 @@ def section_pytree(env, ctx, model):
 
 
 def correspond(ctx, model):
+    import time
+
     env = Env()
-    run_corpus(env, ctx, model)
-    section_names(env, ctx, model)
-    section_reductions(env, ctx, model)
-    section_creation(env, ctx, model)
-    section_operators(env, ctx, model)
-    section_methods(env, ctx, model)
-    section_wrappers(env, ctx, model)
-    section_pytree(env, ctx, model)
+    timing = {}
+    for sec in (run_corpus, section_names, section_reductions, section_creation, section_operators, section_methods,
+                section_wrappers, section_pytree):
+        t0 = time.time()
+        sec(env, ctx, model)
+        timing[sec.__name__] = round(time.time() - t0, 1)
+    ctx.extra["section_wall_s"] = timing
 
 
 def run_corpus(env, ctx, model):
